@@ -156,9 +156,26 @@ func convertVMFunctionToType(rv reflect.Value, rt reflect.Type) (reflect.Value, 
 		// for runVMFunction first arg is always context
 		// TOFIX: use normal context
 		args = append(args, reflect.ValueOf(context.Background()))
-		for i := 0; i < rt.NumIn(); i++ {
-			// have to do the double reflect.ValueOf that runVMFunction expects
-			args = append(args, reflect.ValueOf(in[i]))
+		if rt.IsVariadic() && rv.Type().IsVariadic() {
+			// both are variadic: the VM function gets the values of the variadic parameter, not the slice
+			last := in[len(in)-1]
+			in = in[: len(in)-1 : len(in)-1]
+			for i := 0; i < last.Len(); i++ {
+				in = append(in, last.Index(i))
+			}
+		}
+		numFixed := rv.Type().NumIn() - 1
+		if rv.Type().IsVariadic() {
+			numFixed--
+		}
+		for i := range in {
+			if rv.Type().IsVariadic() && i >= numFixed {
+				// the variadic parameter of a VM function takes the values themselves
+				args = append(args, in[i])
+			} else {
+				// have to do the double reflect.ValueOf that runVMFunction expects
+				args = append(args, reflect.ValueOf(in[i]))
+			}
 		}
 
 		// Call runVMFunction
